@@ -33,16 +33,16 @@ import (
 )
 
 type Case struct {
-	Msg      string `json:"msg"`
-	Ktype    string `json:"ktype"`
-	Who      string `json:"who"`
-	Pksrc    string `json:"pksrc"`
-	Mut      string `json:"mut"`
-	FeeD     int64  `json:"feeD"`
-	BalD     int64  `json:"balD"`
-	Mult     int64  `json:"mult"`
-	Rp       string `json:"rp"` // no | ok | failed
-	Fx       string `json:"fx"` // plain | extra | foreign
+	Msg   string `json:"msg"`
+	Ktype string `json:"ktype"`
+	Who   string `json:"who"`
+	Pksrc string `json:"pksrc"`
+	Mut   string `json:"mut"`
+	FeeD  int64  `json:"feeD"`
+	BalD  int64  `json:"balD"`
+	Mult  int64  `json:"mult"`
+	Rp    string `json:"rp"` // no | ok | failed
+	Fx    string `json:"fx"` // plain | extra | foreign
 }
 
 type Obs struct {
@@ -62,6 +62,7 @@ const baseFee = 3
 // the names the fee tables (PosFeeMap, GovFeeMap, auth FeeMultipliers) are keyed by
 var msgNames = map[string]string{"stake": "stake_validator", "unstake": "begin_unstaking_validator", "unjail": "unjail", "send": "send",
 	"changeparam": "change_param", "upgrade": "upgrade", "daotransfer": "dao_tranfer"}
+
 const sigLimit = 7
 
 // a signing identity: simple key or (nested) multisig
